@@ -20,6 +20,7 @@ LIN = "interp1d/strategies/linear.rs"
 BIL = "interp2d/strategies/bilinear.rs"
 M1 = "interp1d/mod.rs"
 M2 = "interp2d/mod.rs"
+CS = "interp1d/strategies/cubic_spline.rs"
 
 REWRITES = [
     (VE, "let mid_idx = (range.1 - range.0) / 2 + range.0;", "let mid_idx = range.0 + (range.1 - range.0) / 2;"),
@@ -39,6 +40,8 @@ REWRITES = [
     (M1, "        let view = self.data.index_axis(Axis(0), index);\n        (self.x[index], view)", "        (self.x[index], self.data.index_axis(Axis(0), index))"),
     (BIL, "        let (_, _, z12) = interpolator.index_point(x_idx, y_idx + 1);\n        let (_, _, z21) = interpolator.index_point(x_idx + 1, y_idx);",
      "        let (_, _, z21) = interpolator.index_point(x_idx + 1, y_idx);\n        let (_, _, z12) = interpolator.index_point(x_idx, y_idx + 1);"),
+    (CS, "if matches!(self.extrapolate, Extrapolate::No) && !in_range {", "if !in_range && matches!(self.extrapolate, Extrapolate::No) {"),
+    (CS, "        let a_left = self.a.index_axis(AX0, idx);\n        let b_left = self.b.index_axis(AX0, idx);", "        let b_left = self.b.index_axis(AX0, idx);\n        let a_left = self.a.index_axis(AX0, idx);"),
 ]
 
 MUTATIONS = [
@@ -72,6 +75,13 @@ MUTATIONS = [
     (BIL, "let z2 = Linear::calc_frac((x1, z12), (x2, z22), x);", "let z2 = Linear::calc_frac((x1, z12), (x2, z22), y);"),
     (M2, "(self.x.get_lower_index(x), self.y.get_lower_index(y))", "(self.x.get_lower_index(x), self.x.get_lower_index(y))"),
     (M2, "                .index_axis(Axis(0), x_idx)\n                .index_axis_move(Axis(0), y_idx),", "                .index_axis(Axis(0), y_idx)\n                .index_axis_move(Axis(0), x_idx),"),
+    (CS, "if matches!(self.extrapolate, Extrapolate::Periodic) && !in_range {", "if matches!(self.extrapolate, Extrapolate::Periodic) {"),
+    (CS, "let a_left = self.a.index_axis(AX0, idx);", "let a_left = self.a.index_axis(AX0, idx + 1);"),
+    (CS, "x = ((x - x0).rem_euclid(&(xn - x0))) + x0;", "x = ((x - x0).rem_euclid(&(xn - x0))) + xn;"),
+    (CS, "+ t * (one - t) * (a_left * (one - t) + b_left * t);", "+ t * (one + t) * (a_left * (one - t) + b_left * t);"),
+    (CS, "let (x_right, data_right) = interp.index_point(idx + 1);", "let (x_right, data_right) = interp.index_point(idx);"),
+    (CS, "if matches!(self.extrapolate, Extrapolate::No) && !in_range {", "if matches!(self.extrapolate, Extrapolate::Yes) && !in_range {"),
+    (CS, "let t = (x - x_left) / (x_right - x_left);", "let t = (x - x_left) / (x_right - x);"),
     (BIL, "        if !self.extrapolate && !interpolator.is_in_x_range(x) {\n            return Err(InterpolateError::OutOfBounds(format!(\n                \"x = {x:?} is not in range\"\n            )));\n        }\n", ""),
 ]
 
